@@ -81,10 +81,34 @@ func c19StreamInjective(t *fw.T, shard, nshards int, emit func(*fw.Case)) {
 		}
 	})
 	flush()
+	// whole paths: the first segment is the first component that is neither empty nor '.', wherever it stands
+	pn := 0
+	enumerate(c19PathSymbols, t.Pick(8, 10), func(s string) {
+		if shard == 0 {
+			t.Count("paths_titled")
+			want := "/" + firstSegment("/"+s)
+			if got := catalog.VerifPathTagTitle("/" + s); got != want {
+				t.Violation("auto-title", fmt.Sprintf("path %q has automatic title %q, its first segment is %q", "/"+s, got, want))
+			}
+		}
+		// end to end for the paths with at least two skipped components before the first real one
+		if strings.HasPrefix(s, "./.") || strings.HasPrefix(s, "//") || strings.HasPrefix(s, "./") && strings.Contains(s, "a/") {
+			pn++
+			if len(batch) < 25 {
+				batch = append(batch, s+"/u"+fmt.Sprint(pn))
+			}
+			if len(batch) == 25 && pn%7 == 0 {
+				flush()
+			}
+		}
+	})
+	flush()
 	if shard == 0 {
 		t.Add("distinct_auto_names", len(names))
 	}
 }
+
+var c19PathSymbols = []string{"a", "bc", ".", "/"}
 
 func c19EvalInjective(t *fw.T, c *fw.Case) {
 	segs := strings.Split(c.Meta["segs"], "\x00")
